@@ -30,7 +30,13 @@
 #  define FLAVOUR "guard"
 #endif
 
-#define PREFILL 0x5A
+/* Output buffers are pre-filled before every monitored call; what the call may not write must keep
+ * the fill.  The fill value alternates between two complementary patterns from call to call (the
+ * counter restarts with every case), so that a stray write of one fixed value - the fill value
+ * itself included - cannot go unnoticed: consecutive decodes of the same image use different fills. */
+static unsigned prefill_calls;
+static uint8_t PREFILL = 0x5A;
+static void next_prefill(void) { PREFILL = (prefill_calls++ & 1) ? 0xA5 : 0x5A; }
 #define MAXWIDE 8192
 
 struct cfg5 {
@@ -253,6 +259,7 @@ static int decode_all(const struct cfg5 *c, struct rx *x, const uint8_t *img, in
 	int n, i, scan = c->sp.count[0] + c->sp.count[1], total = 0;
 	vbi_sliced *out = out_alloc + (out_max - max_lines);   /* end stays against the guard page */
 	vf_log("  decode %s max_lines=%d\n", what, max_lines);
+	next_prefill();
 	memset(out, PREFILL, sizeof *out * (size_t)max_lines);
 	set_phase("vbi3_raw_decoder_decode", x->func, c);
 	n = (int)vbi3_raw_decoder_decode(x->rd3, out, (unsigned)max_lines, img);
@@ -261,6 +268,7 @@ static int decode_all(const struct cfg5 *c, struct rx *x, const uint8_t *img, in
 	total += n > 0 ? n : 0;
 	vf_count("decode_calls_vbi3", 1);
 	if (x->have_old && max_lines == scan) {
+		next_prefill();
 		memset(out, PREFILL, sizeof *out * (size_t)max_lines);
 		set_phase("vbi_raw_decode", x->func, c);
 		n = vbi_raw_decode(&x->rdo, (uint8_t *)img, out);
@@ -305,6 +313,7 @@ static int slice_line(const struct cfg5 *c, const struct svc *s, const uint8_t *
 	if (ok) {
 		const char *f = job_func(c, bs);
 		if (func_out) *func_out = f;
+		next_prefill();
 		memset(buf, PREFILL, (size_t)nb);
 		set_phase("vbi3_bit_slicer_slice", f, c);
 		if (vbi3_bit_slicer_slice(bs, buf, (unsigned)nb, line)) res |= 1;
@@ -409,6 +418,7 @@ static int run_case(struct vf_rng *r, long idx)
 	long budget_decodes = vf_param[0] > 0 ? vf_param[0] : 1200;
 	(void)idx;
 
+	prefill_calls = 0;
 	gen_cfg(r, &c);
 	scan = c.sp.count[0] + c.sp.count[1];
 	img_size = (size_t)scan * (size_t)c.sp.bytes_per_line;
